@@ -191,6 +191,19 @@ register("mcp.write", "WriteTool._map_parse_warnings_to_corrections", finders=[(
 register("mcp.write", "WriteTool._track_corrections", finders=[("corrections", _returned_name)])
 
 
+def _toggled_flag(fn: ast.AST) -> "str | None":
+    """the one local that is assigned both True and False (an open/closed state flag)"""
+    t, f = set(), set()
+    for n in _walk(fn):
+        if isinstance(n, ast.Assign) and len(n.targets) == 1 and isinstance(n.targets[0], ast.Name) and isinstance(n.value, ast.Constant) and isinstance(n.value.value, bool):
+            (t if n.value.value else f).add(n.targets[0].id)
+    both = t & f
+    return both.pop() if len(both) == 1 else None
+
+
+register("mcp.write", "WriteTool._repair_curly_brace_annotations", finders=[("in_fence", _toggled_flag)])
+
+
 # ------------------------------------------------------------------------------------------------ engine
 def compute_renames(fn: ast.AST, specs: list[Spec], loops: list[LoopSpec], finders: list[Finder]) -> dict[str, str]:
     used = {n.id for n in ast.walk(fn) if isinstance(n, ast.Name)} | {a.arg for a in ast.walk(fn) if isinstance(a, ast.arg)}
